@@ -491,6 +491,11 @@ def mon_settings(ctx, conn):
             continue
         if f[2] == "frame" and len(f) == 4:
             frs = parse_sent(f[3])
+            if len(frs) == 1 and frs[0].length > 16384:
+                # the server advertised SETTINGS_MAX_FRAME_SIZE 16384: it must enforce it
+                codes = [a for n, a in items if n in ("GA", "RST")]
+                if not any("code=6," in a or a.endswith(",6") for a in codes) and "returned" not in names:
+                    viol(ctx, conn, "oversized-frame-accepted", dict(length=frs[0].length, out=out[:200]), known_class=None)
             if len(frs) == 1 and frs[0].typ == 4 and frs[0].sid == 0 and not frs[0].flags & 1:
                 fr = frs[0]
                 bad = None
@@ -663,7 +668,7 @@ def run_c06(ctx):
 
 def run_c08(ctx):
     import c08spec
-    return run_family(ctx, ["srv-state"], [c08spec.mon_reactions, mon_goaway_only_truth],
+    return run_family(ctx, ["srv-state"], [c08spec.mon_reactions],
                       "srv-state: every frame sequence of length <= 2 over 21 symbols x 4 stream selectors on a fresh connection, plus seeded sequences of length 3-7 (thorough: 40000).")
 
 
